@@ -56,4 +56,30 @@ CLAIMS.update({
               'the stored Age field is absent or digits and Date parses). Monitor mon_C11 compares Age with its own age computation within 1 s on the real transport.'),
         note=COMMON_NOTE + ' int(Duration.Seconds()) is modelled with its IEEE rounding (seconds_trunc); its distance from d/1e9 (at most 1) is checked by the run, not proved.'),
 })
+CLAIMS.update({
+    'C04': dict(
+        text=('Theorems C04_match_sound / C04_variant_match (a stored reference matches a request only if no Vary member is "*" and the two '
+              'requests agree after the documented normalisation on every nominated field; all Vary lines count), C04_star, '
+              'C04_encoding_injective (NUL-delimited name/value encoding determines the variant map), C04_id_injective (equal variant ids '
+              'imply equal maps, under the stated hypothesis that FNV-64a does not collide on the two encodings). Monitor mon_C04 on the real '
+              'transport over histories with changing Vary values and adversarial header values.'),
+        note=COMMON_NOTE + ' The 64-bit FNV-1a digest is not injective; collision-freeness on the encodings at hand is a named hypothesis of C04_id_injective.'),
+    'C07': dict(
+        text=('Theorems C07_unsafe_methods (unsafe = not in the IANA safe column), C07_shape, C07_invalidates (after InvalidateCache, for every '
+              'store content: the target index, every entry it listed, every same-origin Location/Content-Location index and its entries are gone, '
+              'and only those keys were removed), C07_cross_origin_untouched, C07_later (the next GET for the key goes to the origin). '
+              'Monitor mon_C07 over histories with arbitrary method tokens and Location forms on the real transport.'),
+        note=COMMON_NOTE + ' URL parsing/resolution of Location values is the model\'s re-implementation of net/url for the generated grammar; other values are OutOfModel.'),
+    'C08': dict(
+        text=('Theorems C08_freshen (after a 304 the store holds the merged entry with the stored status/body and the instants of this exchange), '
+              'C08_merged_fields (field-by-field characterisation of the merge), C08_replace (StoreResponse writes entry and index, keeps the other '
+              'references), C08_index_no_loss, C08_index_unique, C08_background_uses_current_index, C08_background_replaces_own_reference. '
+              'Monitor mon_C08 checks write-back contents/instants and index frames on the real store each run.'),
+        note=COMMON_NOTE),
+    'C19': dict(
+        text=('Theorems C19_index_unique (one reference per response id in every index written), C19_keys_written (a round trip writes only the '
+              'request\'s URI key and variant keys derived from it, on every path), C19_invalidation. Monitor mon_C19 bounds live keys and index '
+              'length independently of history length on long repetitive histories (profile repeat) on the real store.'),
+        note=COMMON_NOTE + ' Orphaned entries whose reference was replaced by a reply with a different Vary are bounded by the distinct variants but not collected; the monitor bound allows them.'),
+})
 NOT_YET = {}
